@@ -36,7 +36,8 @@ const (
 // ---- downStream.MetadataMatchCriteria
 
 type c15asm struct {
-	env c15env
+	env    c15env
+	copied bool // the variable's map is copied into a local map before the route's pairs are written
 }
 
 func c15isCall(e ast.Expr, key string, nargs int) (*ast.CallExpr, bool) {
@@ -149,6 +150,13 @@ func (a *c15asm) stmts(l []ast.Stmt, ind string) (string, error) {
 			return "", err
 		}
 		return ind + "if " + c + " then\n" + t + "\n" + ind + "else\n" + e, nil
+	case *ast.AssignStmt:
+		// merged := make(map[string]string, …); for k, v := range varMeta { merged[k] = v }; varMeta = merged
+		if n := c15qCopyGroup(l); n > 0 {
+			a.copied = true
+			return a.stmts(l[n:], ind)
+		}
+		return "", fmt.Errorf("unsupported assignment %s", c15print(st.Lhs[0]))
 	case *ast.RangeStmt:
 		c, err := a.copyLoop(st)
 		if err != nil {
@@ -239,6 +247,9 @@ func genAssemble(f *ast.File) (string, error) {
 		"object; `retNew` = router.NewMetadataMatchCriteriaImpl(varMeta); `retMerge` = routerMeta.MergeMatchCriteria(varMeta). -/\n"
 	s += "def assemble {σ ρ : Type} (copyRoute : (Bool → Bool) → σ → σ) (retRoute retNew retMerge retNil : σ → ρ)\n" +
 		"    (varNonNil routeNonNil : Bool) (s : σ) : ρ :=\n" + body + "\n"
+	s += "/-- the route's pairs are written into a COPY of the variable's map (`merged := make(…); for k, v := range varMeta {…}; varMeta = merged`\n" +
+		"directly before the loop): the map a stream filter stored in the variable is never modified. -/\n"
+	s += fmt.Sprintf("def varCopiedBeforeMerge : Bool := %v\n", a.copied)
 	return s, nil
 }
 
@@ -588,4 +599,48 @@ func genSubsetRequest() (string, error) {
 	}
 	s += footer("SubsetRequest")
 	return s, nil
+}
+
+// c15qCopyGroup recognises, at the head of l,
+//
+//	m := make(map[string]string[, n]); for k, v := range varMeta { m[k] = v }; varMeta = m
+//
+// directly followed by the loop that writes the route's pairs; returns the number of statements (3) or 0.
+func c15qCopyGroup(l []ast.Stmt) int {
+	if len(l) < 4 {
+		return 0
+	}
+	as, ok := l[0].(*ast.AssignStmt)
+	if !ok || as.Tok != token.DEFINE || len(as.Lhs) != 1 || len(as.Rhs) != 1 {
+		return 0
+	}
+	m := goKey(as.Lhs[0])
+	mk, ok := as.Rhs[0].(*ast.CallExpr)
+	if !ok || goKey(mk.Fun) != "make" || len(mk.Args) < 1 || len(mk.Args) > 2 {
+		return 0
+	}
+	if mt, ok := mk.Args[0].(*ast.MapType); !ok || goKey(mt.Key) != "string" || goKey(mt.Value) != "string" {
+		return 0
+	}
+	rs, ok := l[1].(*ast.RangeStmt)
+	if !ok || rs.Tok != token.DEFINE || rs.Key == nil || rs.Value == nil || goKey(rs.X) != "varMeta" || len(rs.Body.List) != 1 {
+		return 0
+	}
+	k, v := goKey(rs.Key), goKey(rs.Value)
+	st, ok := rs.Body.List[0].(*ast.AssignStmt)
+	if !ok || st.Tok != token.ASSIGN || len(st.Lhs) != 1 || len(st.Rhs) != 1 || goKey(st.Rhs[0]) != v {
+		return 0
+	}
+	ix, ok := st.Lhs[0].(*ast.IndexExpr)
+	if !ok || goKey(ix.X) != m || goKey(ix.Index) != k {
+		return 0
+	}
+	fin, ok := l[2].(*ast.AssignStmt)
+	if !ok || fin.Tok != token.ASSIGN || len(fin.Lhs) != 1 || len(fin.Rhs) != 1 || goKey(fin.Lhs[0]) != "varMeta" || goKey(fin.Rhs[0]) != m {
+		return 0
+	}
+	if _, ok := l[3].(*ast.RangeStmt); !ok {
+		return 0
+	}
+	return 3
 }
